@@ -365,7 +365,13 @@ func init() {
 			p := txProfile()
 			p.PDup, p.PBadNonce, p.PWrongChain, p.PMultisig, p.PBadSig = 0.2, 0.15, 0.05, 0.1, 0.06
 			p.TxMax = 8
-			return baseScenario("C04", r, seed, chain, tier, p, nil)
+			p.PRestart = 0.05
+			sc := baseScenario("C04", r, seed, chain, tier, p, nil)
+			// the node is restarted now and then: a nonce that lived only in memory would come back stale
+			if r.Intn(2) == 0 {
+				sc.Params = map[string]int64{"main_restart": 1}
+			}
+			return sc
 		},
 		Monitors: func(sc *Scenario) []Monitor { return []Monitor{&MonC04{}} },
 		ChainFor: func(i int) int { return 1 + i%2 },
@@ -376,7 +382,7 @@ func init() {
 			}
 			return out
 		},
-		ExpectProbes: []string{"c04_accepted", "c04_dup_rejected", "c04_bad_nonce_rejected"},
+		ExpectProbes: []string{"c04_accepted", "c04_dup_rejected", "c04_bad_nonce_rejected", "main_node_restarted"},
 	})
 }
 
